@@ -24,7 +24,8 @@ RULE = ("periodic structures from findlib.planted_structure (1-5 planted copies 
         "origins random / hugging faces / corners, orthorhombic / triclinic +- tilt / rotated cells, decoys), 40 % of them "
         "given with partly UNWRAPPED coordinates (noble-gas bystanders and atoms of planted copies lying up to 0.4 A - and "
         "less than 0.8 search lengths - outside the cell), unique charges, "
-        "random groups, type labels = or != element names; replacement EMPTY / smaller / equal / larger, with / without "
+        "random groups, type labels = or != element names; replacement EMPTY (plain Atoms(), the search pattern with every atom deleted, zero atoms + type tables, + coefficient "
+        "tables) / smaller / equal / larger, with / without "
         "atoms shared with the search pattern (same element + same coordinates; non-shared atoms differ in element or by "
         ">= 1/1024 A), shuffled atom order; atol in {.05 (mostly), .02, .1, .2} with the copies distorted by <= atol/8; axis / "
         "orientation hints none (75 %) or valid full / partial triples; return_num_matches on (85 %) / off; 20 % of the structures "
@@ -194,16 +195,20 @@ def oracle_replace(inp, out):
     return None
 
 
-def run_replace_kw(sj, pj, rj, atol, fraction, replace_all, ignore, hints, seed, return_num):
+def run_replace_kw(sj, pj, rj, atol, fraction, replace_all, ignore, hints, seed, return_num, rj_src=None):
     """findlib.run_replace with `return_num_matches` selectable: with False only the structure comes back
     (out["n"] is then None).  Same recording of the found matches, of the random.sample selection and of
     inputs_unchanged."""
     import random
     import numpy as np
     import mofun.mofun as mm
-    if return_num:
+    if return_num and rj_src is None:
         return fl.run_replace(sj, pj, rj, atol=atol, fraction=fraction, replace_all=replace_all, ignore=ignore, hints=hints, seed=seed)
-    s, p, r = core.atoms_from_json(sj), core.atoms_from_json(pj), core.atoms_from_json(rj)
+    s, p = core.atoms_from_json(sj), core.atoms_from_json(pj)
+    # an EMPTY replacement that still carries type tables is rebuilt as the real object it stands for
+    r = core.atoms_from_json(rj) if rj_src is None else g.empty_by_deletion(rj_src)
+    if core.same(core.canon_atoms(r), rj) is not None:
+        raise RuntimeError("harness: the rebuilt replacement object is not the one described by the case")
     rec = {}
     real_find, real_sample = mm.find_pattern_in_structure, random.sample
 
@@ -225,13 +230,19 @@ def run_replace_kw(sj, pj, rj, atol, fraction, replace_all, ignore, hints, seed,
     try:
         res = core.result_of(lambda: mm.replace_pattern_in_structure(
             s, p, r, replace_fraction=fraction, atol=atol, axisp1_idx=hints[0], axisp2_idx=hints[1], opoint_idx=hints[2],
-            replace_all=replace_all, ignore_atoms_should_not_be_deleted_twice=ignore))
+            replace_all=replace_all, ignore_atoms_should_not_be_deleted_twice=ignore, return_num_matches=bool(return_num)))
     finally:
         mm.find_pattern_in_structure = real_find
         random.sample = real_sample
     out = {"found": rec.get("found"), "sample": rec.get("sample"), "n": None}
     if "ok" in res:
-        if isinstance(res["ok"], tuple):
+        if return_num:
+            if isinstance(res["ok"], tuple) and len(res["ok"]) == 2:
+                out["ok"] = core.canon_atoms(res["ok"][0])
+                out["n"] = int(res["ok"][1])
+            else:
+                out["err"] = "error:no-match-count-returned-with-return_num_matches"
+        elif isinstance(res["ok"], tuple):
             out["err"] = "error:returned-a-tuple-without-return_num_matches"
         else:
             out["ok"] = core.canon_atoms(res["ok"])
@@ -250,7 +261,7 @@ def run_replace_kw(sj, pj, rj, atol, fraction, replace_all, ignore, hints, seed,
 def real(inp):
     return run_replace_kw(inp["sj"], inp["pj"], inp["rj"], atol=inp["atol"], fraction=inp["f"], replace_all=inp["replace_all"],
                           ignore=inp.get("ignore", False), hints=tuple(inp.get("hints") or (None, None, None)), seed=inp["seed"],
-                          return_num=inp.get("return_num", True))
+                          return_num=inp.get("return_num", True), rj_src=inp.get("rj_src"))
 
 
 def one(inp):
@@ -271,7 +282,7 @@ def tags_of(inp, out):
          "unwrapped-atoms:%s" % ("yes" if i.get("outside") else "no"), "atol:%g" % inp["atol"],
          "hints:%s" % "".join("-" if h is None else "x" for h in (inp.get("hints") or [None] * 3)),
          "return_num_matches:%s" % inp.get("return_num", True), "spare-types:%s" % bool(i.get("spare_types")),
-         "step:%s" % (i.get("step", "single") if i.get("step") != 1 else "1:" + i.get("step1kind", "?"))]
+         "empty-kind:%s" % i.get("empty_kind", "-"), "step:%s" % (i.get("step", "single") if i.get("step") != 1 else "1:" + i.get("step1kind", "?"))]
     if i.get("step") == 2:
         t.append("step2-after:" + str(i.get("step1")))
     if out.get("found") is not None:
